@@ -9,7 +9,7 @@ def run(tier, seed, t0):
         PROP, tier, seed, t0,
         families=[("consumer", 600, 10000), ("connclose", 100, 1000), ("chanclose", 100, 1000),
                   ("consumer_drop", 150, 2000), ("mixed", 150, 2000)],
-        own_kinds=("consumer-drop",),
+        own_kinds=('consumer',),
         mc_jobs=[("MC_Conn_consumer_q.cfg", None, "quick"), ("MC_Conn_consumer.cfg", None, "thorough"),
                  ("MC_Conn_consumer_bug.cfg", "OneTerminal", None)],
         rule="histories over 1-2 channels x 1-2 consumers of: deliveries (bodies of 0/3/40 bytes in random partitions), "
